@@ -14,6 +14,7 @@ package c06
 
 import (
 	"bytes"
+	"errors"
 	"fmt"
 	"io"
 	"math/rand"
@@ -444,6 +445,70 @@ func evalCore(c *fw.Ctx, id string, cc coreCase, p pdfsyn.Policy, data []byte, d
 	return f
 }
 
+// faultyReader delivers data in small reads and fails at one offset: once
+// (transient: the next Read continues) or from there on (permanent).
+type faultyReader struct {
+	data      []byte
+	pos, at   int
+	permanent bool
+	fired     bool
+}
+
+var errInjected = errors.New("injected read error")
+
+func (f *faultyReader) Read(p []byte) (int, error) {
+	if f.pos >= f.at && (!f.fired || f.permanent) {
+		f.fired = true
+		return 0, errInjected
+	}
+	if f.pos >= len(f.data) {
+		return 0, io.EOF
+	}
+	n := len(p)
+	if n > 7 {
+		n = 7
+	}
+	if f.pos < f.at && f.pos+n > f.at && !f.fired {
+		n = f.at - f.pos
+	}
+	n = copy(p[:n], f.data[f.pos:])
+	f.pos += n
+	return n, nil
+}
+
+// evalCoreReadFaults parses the spelling through a reader that fails at a
+// chosen offset and counts what happens (error reported / tree still equal /
+// tree silently different). Nothing is asserted here, see below.
+func evalCoreReadFaults(c *fw.Ctx, id string, cc coreCase, p pdfsyn.Policy, data []byte, detail map[string]any, r *rand.Rand, a *acc) (f *failure) {
+	if cc.form != "single" && cc.form != "sequence" || len(data) < 2 {
+		return nil
+	}
+	class := "core-read-fault/" + pdfsyn.WSNames[p.WS]
+	c.Guard(class, id, detail, func() {
+		for k := 0; k < 6 && f == nil; k++ {
+			fr := &faultyReader{data: data, at: 1 + r.Intn(len(data)-1), permanent: k%2 == 1}
+			ps := core.NewParser(fr)
+			for n, t := range cc.trees {
+				got, err := ps.ParseObject()
+				a.Count("core_parses_under_read_fault", 1)
+				if err != nil {
+					a.Count("core_read_fault_reported_as_error", 1)
+					break
+				}
+				if d := diff(t, got, fmt.Sprintf("obj%d", n)); d != "" {
+					// observed, not judged: C06 speaks about the bytes written, not about
+					// readers that fail. On the pinned tree the lexer already takes a read
+					// error for the end of input inside strings, escapes and the "n g R"
+					// look-ahead, so "56 0 R" cut by a failing reader reads as the integer 56.
+					a.Count("core_read_fault_silent_mismatch_observed", 1)
+					break
+				}
+			}
+		}
+	})
+	return f
+}
+
 func coreDetail(cc coreCase, p pdfsyn.Policy, desc string, data []byte) map[string]any {
 	return map[string]any{"form": cc.form, "policy": p.String(), "tree": desc, "input": string(data), "input_hex": fmt.Sprintf("%x", short(data))}
 }
@@ -474,6 +539,9 @@ func runCoreCase(c *fw.Ctx, id string, i int) {
 		}
 		detail := coreDetail(cc, p, desc, data)
 		f := evalCore(c, id, cc, p, data, detail, ev)
+		if f == nil && k == i%nPolicies {
+			f = evalCoreReadFaults(c, id, cc, p, data, detail, c.Rand("core", i, "readfault"), ev)
+		}
 		report(c, id, f, detail, w.Features["raw-eol-cr-in-string"] > 0, func() (*failure, map[string]any) {
 			np := p
 			np.NoRawEOL = true
